@@ -4,6 +4,9 @@
 //!   kind 0 token bucket : p0 = max_tokens, p1 = initial_tokens
 //!   kind 1 AIMD budget  : p0 = min_budget, p1 = max_budget, p2 = deposit_amount,
 //!                         p3 = withdraw_amount, p4/p5 = decrease factor (as f64 p4 / p5)
+//!   kind 2 / 3          : the same two budgets built by RetryBudgetBuilder and used through
+//!                         Arc<dyn RetryBudget> (kind 2: p2 = 1 leaves initial_tokens unset;
+//!                         no current_max(): call code 3 reads the balance, snapshot ceiling 0)
 //!   call codes: 0 try_withdraw (-> 0/1), 1 deposit (-> 2), 2 balance() (-> value),
 //!               3 current_max() (AIMD only; token bucket: balance())
 //!   the prelude runs sequentially on the main thread before the workers start;
@@ -14,8 +17,8 @@
 //!         completed by this operation or -1, balance(), ceiling]
 //!         then per worker [atomic steps, return value of every call], then [balance(), ceiling]
 use std::cell::Cell;
-use std::sync::{Condvar, Mutex};
-use tower_resilience_retry::{AimdBudget, RetryBudget, TokenBucketBudget};
+use std::sync::{Arc, Condvar, Mutex};
+use tower_resilience_retry::{AimdBudget, RetryBudget, RetryBudgetBuilder, TokenBucketBudget};
 use verif_harness::*;
 
 // ---------------------------------------------------------------------------
@@ -111,7 +114,7 @@ impl Drop for Finish {
 
 /// Runs `progs[i]` on worker i over the shared object; `call` performs one API call.
 /// Returns (per-entry [op, completed, snapshot..], per-worker results, per-worker steps).
-fn run_threads<O: Sync>(
+fn run_threads<O: Sync + ?Sized>(
     obj: &O,
     progs: &[Vec<(i128, i128)>],
     sched: &[i128],
@@ -142,6 +145,9 @@ fn run_threads<O: Sync>(
             });
         }
         for e in sched {
+            // virtual time passes between the atomic steps (1 s each): the budgets have no
+            // time-based refill, the model has no clock, so time must not show in the trace
+            VIRT_NS.fetch_add(1_000_000_000, std::sync::atomic::Ordering::SeqCst);
             let (op, done) = if *e < 0 { (0, -1) } else { grant(*e as usize) };
             per_entry.extend([op, done]);
             per_entry.extend(snap(obj));
@@ -170,18 +176,6 @@ fn take_pairs(s: &[i128], pos: &mut usize, n: i128) -> Vec<(i128, i128)> {
     v
 }
 
-fn budget_call(b: &dyn RetryBudget, cur_max: &dyn Fn() -> i128, c: (i128, i128)) -> i128 {
-    match c.0 {
-        0 => b.try_withdraw() as i128,
-        1 => {
-            b.deposit();
-            2
-        }
-        3 => cur_max(),
-        _ => b.balance() as i128,
-    }
-}
-
 fn run(s: &[i128]) -> Vec<i128> {
     let kind = zn(s, 0);
     let p: Vec<i128> = (1..7).map(|i| zn(s, i)).collect();
@@ -201,48 +195,76 @@ fn run(s: &[i128]) -> Vec<i128> {
     pos += 1;
     let sched: Vec<i128> = (0..nsched).filter_map(|i| s.get(pos + i).copied()).collect();
 
-    let mut tr;
-    let (results, steps);
-    if kind == 0 {
-        let b = TokenBucketBudget::new(10.0, p[0] as usize, p[1] as usize);
-        let pre_rets: Vec<i128> = pre.iter().map(|c| budget_call(&b, &|| b.balance() as i128, *c)).collect();
-        let r = run_threads(
-            &b,
-            &progs,
-            &sched,
-            &|b: &TokenBucketBudget, c| budget_call(b, &|| b.balance() as i128, c),
-            &|b: &TokenBucketBudget| vec![b.balance() as i128, 0],
-        );
-        tr = pre_rets;
-        tr.extend(r.0);
-        results = r.1;
-        steps = r.2;
-        for (i, rs) in results.iter().enumerate() {
-            tr.push(steps[i]);
-            tr.extend(rs);
+    // kinds 2 / 3: the same budgets built by RetryBudgetBuilder, used through Arc<dyn RetryBudget>
+    // (no current_max() there: call code 3 reads the balance, the snapshot's ceiling is 0)
+    match kind {
+        0 => {
+            let b = TokenBucketBudget::new(10.0, p[0] as usize, p[1] as usize);
+            run_budget(&b, &pre, &progs, &sched, &|b: &TokenBucketBudget| b.balance() as i128, &|_| 0)
         }
-        tr.extend([b.balance() as i128, 0]);
-    } else {
-        let factor = if p[5] == 0 { 0.0 } else { p[4] as f64 / p[5] as f64 };
-        let b = AimdBudget::new(p[0] as usize, p[1] as usize, p[2] as usize, p[3] as usize, factor);
-        let pre_rets: Vec<i128> = pre.iter().map(|c| budget_call(&b, &|| b.current_max() as i128, *c)).collect();
-        let r = run_threads(
-            &b,
-            &progs,
-            &sched,
-            &|b: &AimdBudget, c| budget_call(b, &|| b.current_max() as i128, c),
-            &|b: &AimdBudget| vec![b.balance() as i128, b.current_max() as i128],
-        );
-        tr = pre_rets;
-        tr.extend(r.0);
-        results = r.1;
-        steps = r.2;
-        for (i, rs) in results.iter().enumerate() {
-            tr.push(steps[i]);
-            tr.extend(rs);
+        2 => {
+            let mut bld = RetryBudgetBuilder::new().token_bucket().tokens_per_second(10.0).max_tokens(p[0] as usize);
+            if p[2] != 1 {
+                bld = bld.initial_tokens(p[1] as usize);
+            }
+            let b: Arc<dyn RetryBudget> = bld.build();
+            run_budget(&*b, &pre, &progs, &sched, &|b: &(dyn RetryBudget + 'static)| b.balance() as i128, &|_| 0)
         }
-        tr.extend([b.balance() as i128, b.current_max() as i128]);
+        3 => {
+            let factor = if p[5] == 0 { 0.0 } else { p[4] as f64 / p[5] as f64 };
+            let b: Arc<dyn RetryBudget> = RetryBudgetBuilder::new()
+                .aimd()
+                .min_budget(p[0] as usize)
+                .max_budget(p[1] as usize)
+                .deposit_amount(p[2] as usize)
+                .withdraw_amount(p[3] as usize)
+                .decrease_factor(factor)
+                .build();
+            run_budget(&*b, &pre, &progs, &sched, &|b: &(dyn RetryBudget + 'static)| b.balance() as i128, &|_| 0)
+        }
+        _ => {
+            let factor = if p[5] == 0 { 0.0 } else { p[4] as f64 / p[5] as f64 };
+            let b = AimdBudget::new(p[0] as usize, p[1] as usize, p[2] as usize, p[3] as usize, factor);
+            run_budget(&b, &pre, &progs, &sched, &|b: &AimdBudget| b.current_max() as i128, &|b: &AimdBudget| {
+                b.current_max() as i128
+            })
+        }
     }
+}
+
+/// prelude on the main thread, the scheduled part, the drain; `cur_max` answers call code 3,
+/// `ceiling` is the second word of every snapshot
+fn run_budget<B: RetryBudget + ?Sized>(
+    b: &B,
+    pre: &[(i128, i128)],
+    progs: &[Vec<(i128, i128)>],
+    sched: &[i128],
+    cur_max: &(dyn Fn(&B) -> i128 + Sync),
+    ceiling: &(dyn Fn(&B) -> i128 + Sync),
+) -> Vec<i128> {
+    let call = |b: &B, c: (i128, i128)| -> i128 {
+        match c.0 {
+            0 => b.try_withdraw() as i128,
+            1 => {
+                b.deposit();
+                2
+            }
+            3 => cur_max(b),
+            _ => b.balance() as i128,
+        }
+    };
+    // one hour of virtual time between construction and the first call
+    VIRT_NS.fetch_add(3_600_000_000_000, std::sync::atomic::Ordering::SeqCst);
+    let mut tr: Vec<i128> = pre.iter().map(|c| call(b, *c)).collect();
+    VIRT_NS.fetch_add(3_600_000_000_000, std::sync::atomic::Ordering::SeqCst);
+    let (entries, results, steps) =
+        run_threads(b, progs, sched, &call, &|b: &B| vec![b.balance() as i128, ceiling(b)]);
+    tr.extend(entries);
+    for (i, rs) in results.iter().enumerate() {
+        tr.push(steps[i]);
+        tr.extend(rs);
+    }
+    tr.extend([b.balance() as i128, ceiling(b)]);
     tr
 }
 
